@@ -467,6 +467,20 @@ fn gen_pair(rng: &mut Rng, complex: bool, da: usize, db: usize, plain: bool) -> 
         shape_a.push_str(decorate(rng, complex, &mut a, tol_a.unwrap_or(DEFAULT_TOL)));
         shape_b.push_str(decorate(rng, complex, &mut b, tol_a.unwrap_or(DEFAULT_TOL)));
     }
+    if !plain && a.len() >= 3 && a.len() <= 100 && rng.chance(0.05) {
+        // related operands: the longer one continues the shorter one (its low-order coefficients are
+        // bit-identical: partial sums of one series, p and p + x^k q) - or the two are identical
+        let extra = rng.below(6);
+        b = a.clone();
+        for _ in 0..extra {
+            b.push(rand_scalar(rng, complex, -1.0, 1.0) + C64::new(0.25, 0.0));
+        }
+        shape_b = format!("{}+continuation-of-a-by-{}-terms", shape_a, extra);
+        if rng.bool() {
+            std::mem::swap(&mut a, &mut b);
+            std::mem::swap(&mut shape_a, &mut shape_b);
+        }
+    }
     let s = match rng.below(10) {
         0 => C64::new(1.0, 0.0),
         1 => C64::new(-1.0, 0.0),
